@@ -68,7 +68,23 @@ func (ex *Exec) isOwnClosure(fn *ssa.Function) bool {
 	return false
 }
 
+// callSiteObligations: `callsite <callee> requires e` clauses of the function under verification.
+func (ex *Exec) callSiteObligations(fr *Frame, ins ssa.Instruction, cname string, args []Val) {
+	if ex.contract == nil || fr.fn != ex.root {
+		return
+	}
+	for i, cs := range ex.contract.CallSites[cname] {
+		cenv := ex.envFor(fr, nil)
+		for j, a := range args {
+			cenv.vars[fmt.Sprintf("$%d", j)] = a
+		}
+		ex.oblige("callsite", ex.siteOf(ins, fmt.Sprintf("%s:%03d", cname, i)), ins.Pos(), "at every call of "+cname+": "+cs.Text, ex.softBool(cs.E, cenv))
+	}
+}
+
 func (ex *Exec) staticCall(fr *Frame, ins ssa.Instruction, fn *ssa.Function, args []Val, free []Val, isDefer bool) {
+	// also for intrinsics, inlined callees and callees without a contract
+	ex.callSiteObligations(fr, ins, relName(fn), args)
 	if v, ok := ex.intrinsic(fr, ins, fn, args); ok {
 		if !isDefer {
 			ex.bindResult(fr, ins, v)
@@ -373,15 +389,9 @@ func (ex *Exec) calleeEnv(c *Contract, fn *ssa.Function, sig *types.Signature, a
 
 func (ex *Exec) applyContractSig(fr *Frame, ins ssa.Instruction, c *Contract, fn *ssa.Function, sig *types.Signature, args []Val, free []Val, cname string) Val {
 	env := ex.calleeEnv(c, fn, sig, args, free)
-	// obligations the caller's own contract attaches to calls of this callee
-	if ex.contract != nil && fr.fn == ex.root {
-		for i, cs := range ex.contract.CallSites[cname] {
-			cenv := ex.envFor(fr, nil)
-			for j, a := range args {
-				cenv.vars[fmt.Sprintf("$%d", j)] = a
-			}
-			ex.oblige("callsite", ex.siteOf(ins, fmt.Sprintf("%s:%03d", cname, i)), ins.Pos(), "at every call of "+cname+": "+cs.Text, ex.softBool(cs.E, cenv))
-		}
+	// obligations the caller's own contract attaches to calls of this callee (static callees: see staticCall)
+	if fn == nil || cname != relName(fn) {
+		ex.callSiteObligations(fr, ins, cname, args)
 	}
 	for i, rq := range c.Requires {
 		ex.oblige("pre", ex.siteOf(ins, fmt.Sprintf("%s:%03d", cname, i)), ins.Pos(), "precondition of "+cname+": "+rq.Text, ex.evalBool(rq.E, env))
